@@ -452,7 +452,10 @@ def run(ctx):
     seqs = ["GeneralSequence", "NucleotideSequence", "ProteinSequence", "PositionalSequence",
             "PurePositionalSequence", "I3DSequence", "ProteinBlocksSequence"]
     copycontract.check(ctx, idx, seqs, "R5", immutable={
-        ("GeneralSequence", "_alphabet"): "alphabets are immutable once built and are shared between sequences by design"})
+        ("GeneralSequence", "_alphabet"): "alphabets are immutable once built and are shared between sequences by design",
+        ("PositionalSequence", "original_sequence"): "the constructor keeps the ALPHABET of the sequence it is given (reconstruct() builds "
+                                                     "a new sequence around the original's alphabet): alphabets are immutable and shared by design",
+        ("PurePositionalSequence", "original_sequence"): "as for PositionalSequence"})
     cp = s.func("Sequence.copy")
     fresh = [st for st in stmts(cp) if isinstance(st, ast.Assign) and ast.unparse(st.targets[0]) == "clone.code"]
     # (if / else statements or one conditional expression: the clone gets a COPY of the code unless the caller hands in a new one)
